@@ -21,8 +21,8 @@ import (
 	"strings"
 	"time"
 
-	"github.com/kubeshark/base/pkg/api"
 	"github.com/google/martian/har"
+	"github.com/kubeshark/base/pkg/api"
 	"github.com/kubeshark/base/pkg/extensions/amqp"
 	httpext "github.com/kubeshark/base/pkg/extensions/http"
 	"github.com/kubeshark/base/pkg/extensions/kafka"
